@@ -236,6 +236,28 @@ pub mod rpc {
         crate::rpc::ping::RATE
     }
 
+    /// The gossip RPCs whose servers the in-situ limits scenario floods.
+    pub fn capability_get_block() -> u64 {
+        <crate::rpc::get_block::Rpc as crate::rpc::Rpc>::CAPABILITY.id()
+    }
+    pub fn inflight_get_block() -> u32 {
+        <crate::rpc::get_block::Rpc as crate::rpc::Rpc>::INFLIGHT
+    }
+    pub fn capability_push_tx() -> u64 {
+        <crate::rpc::push_tx::Rpc as crate::rpc::Rpc>::CAPABILITY.id()
+    }
+    pub fn inflight_push_tx() -> u32 {
+        <crate::rpc::push_tx::Rpc as crate::rpc::Rpc>::INFLIGHT
+    }
+    /// Wire encoding (protobuf, without the length prefix) of a `get_block` request.
+    pub fn encode_get_block_req(number: validator::BlockNumber) -> Vec<u8> {
+        zksync_protobuf::encode(&crate::rpc::get_block::Req(number))
+    }
+    /// Wire encoding (protobuf, without the length prefix) of a `push_tx` request.
+    pub fn encode_push_tx_req(tx: Vec<u8>) -> Vec<u8> {
+        zksync_protobuf::encode(&crate::rpc::push_tx::Req(zksync_consensus_engine::Transaction(tx)))
+    }
+
     /// Wire encoding (protobuf, without the length prefix) of a consensus request.
     pub fn encode_consensus_req(msg: &validator::Signed<validator::ConsensusMsg>) -> Vec<u8> {
         zksync_protobuf::encode(&crate::rpc::consensus::Req(msg.clone()))
